@@ -25,6 +25,8 @@ def forall(dom, f):
     import itertools
     if not isinstance(dom, (tuple, str)) and hasattr(dom, "__call__") or type(dom).__name__.endswith("EdgeView"):
         return all(f(*x) for x in dom) and all(f(*reversed(tuple(x))) for x in dom)
+    if isinstance(dom, (dict, set, frozenset)) and dom and all(isinstance(x, tuple) and len(x) == n for x in dom):
+        return all(f(*x) for x in list(dom))      # tuple-keyed map / set: the lambda destructures the key
     doms = dom if isinstance(dom, tuple) and len(dom) == n else (dom,) * n
     return all(f(*xs) for xs in itertools.product(*[_dom(d) for d in doms]))
 
@@ -37,6 +39,8 @@ def exists(dom, f):
     import itertools
     if type(dom).__name__.endswith("EdgeView"):
         return any(f(*x) for x in dom) or any(f(*reversed(tuple(x))) for x in dom)
+    if isinstance(dom, (dict, set, frozenset)) and dom and all(isinstance(x, tuple) and len(x) == n for x in dom):
+        return any(f(*x) for x in list(dom))
     doms = dom if isinstance(dom, tuple) and len(dom) == n else (dom,) * n
     return any(f(*xs) for xs in itertools.product(*[_dom(d) for d in doms]))
 
@@ -101,3 +105,7 @@ def float_or_none(v):
         return float(v)
     except (TypeError, ValueError):
         return None
+
+
+def alive(o):
+    return True
